@@ -305,12 +305,12 @@ def condition_of(ctx, fi: FuncInfo, node: ast.AST, subst=None, canon=None):
     return bn.mk_and([bn.mk_or(fs)] + extra)
 
 
-def symbolic_returns(fi: FuncInfo) -> List[Tuple[List[Tuple[ast.AST, bool]], Optional[ast.AST], ast.stmt]]:
+def symbolic_returns(fi: FuncInfo, stmts: Optional[List[ast.stmt]] = None) -> List[Tuple[List[Tuple[ast.AST, bool]], Optional[ast.AST], ast.stmt]]:
     """Path enumeration of a loop-free function with locals substituted away: [(conditions, returned value, stmt)];
     conditions and values mention only parameters, attributes and calls (value None = falls off the end / bare return).
     Assignments to plain names are substituted forward along each path (path-sensitive, so a name bound differently on
     two branches is resolved on each)."""
-    body = [s for s in fi.node.body if not (isinstance(s, ast.Expr) and isinstance(s.value, ast.Constant))]
+    body = [s for s in (stmts if stmts is not None else fi.node.body) if not (isinstance(s, ast.Expr) and isinstance(s.value, ast.Constant))]
     out: List[Tuple[List[Tuple[ast.AST, bool]], Optional[ast.AST], ast.stmt]] = []
 
     def sub(e: ast.AST, env: Dict[str, ast.AST]) -> ast.AST:
@@ -332,7 +332,7 @@ def symbolic_returns(fi: FuncInfo) -> List[Tuple[List[Tuple[ast.AST, bool]], Opt
             if isinstance(st, ast.Return):
                 out.append((conds, sub(st.value, env) if st.value is not None else None, st))
                 return
-            if isinstance(st, ast.Raise):
+            if isinstance(st, (ast.Raise, ast.Continue, ast.Break)):
                 return
             if isinstance(st, (ast.For, ast.While, ast.Try, ast.With)):
                 raise AnalysisError(f'{fi.fq}: symbolic paths: loop/try/with in a function expected to be straight-line')
